@@ -44,5 +44,9 @@ def check(prog: Program, run: Run) -> None:
     c04.twoc_minimum_is_exact(prog, run, "C03.R5")
     from . import c02
     common.run_as(run, "C02.R2", "C03.R6", lambda r: c02._siblings(prog, r))
+    run.rule("C03.R7", "each part of a COMPU-SCALE is parsed with the data type of the side it "
+             "belongs to, so an inverse value has the internal type the encoder needs (shared "
+             "with C07.R8)", floor=7)
+    compu.scale_parse_roles(prog, run, "C03.R7")
     common.g5_absence_by_truthiness(prog, run, "C03.G5", [
         "odxtools/compumethods/*.py", "odxtools/dataobjectproperty.py", "odxtools/dtcdop.py"])
